@@ -353,3 +353,14 @@ EXTRA8 = {
 }
 for _k, _v in EXTRA8.items():
     EXTRA[_k] = EXTRA.get(_k, "") + _v
+EXTRA9 = {
+    "C09": " Round j: every root entry of the recursive solver discards what an unwound solve left in progress (stack and search graph).",
+    "C19": " Round j: the pair enumeration uses no pairing/dropping adaptor (zip, filter_map, take_while ..).",
+    "C18": " Round j: impl-provided associated type values are looked up for every self type in the Normalize arm.",
+    "C08": " Round j: AdtVariantDatum.fields keeps declaration order (no map/set/sort on the way).",
+    "C20": " Round j: perform_orphan_check returns Ok only behind the solver's yes.",
+    "C25": " Round j: DownShifter tests for capture before re-adding the internal binders.",
+    "C29": " The answer zipper (AnswerSubstitutor::zip_tys) relates components at the unifier's variances (SIBLING-RESOLVENT); variance expressions are evaluated by meaning through helpers.",
+}
+for _k, _v in EXTRA9.items():
+    EXTRA[_k] = EXTRA.get(_k, "") + _v
